@@ -15,7 +15,7 @@ use crate::models::*;
 use crate::udpdrv::*;
 use crate::vensure;
 
-pub const RULE: &str = "(histories) C01's generator with statistics, peer-client tallies, histograms and scrape exports on, 6 peer ids of distinct clients, re-announces of a stored address under a new peer id, stops and expiries; after every clean: the four swarm totals == model, the fold of the PeerAdded/PeerRemoved stream (the statistics worker's rule) == number of stored entries per peer id, each export file == exactly the model's `{4|6} <hex> <seeders> <leechers>` lines. (crash points, fault enumeration) a child process exports state A, mutates to state B and exports again; a probe handler aborts the process at each individual step the export emits (created, every line, before_flush, flushed, renamed) and — second variant — pauses there while a reader reads the path; the file at the configured path must be byte-complete F_A or F_B; after an abort the tracker is started again with a smaller state C and exports to the same path, which must then hold exactly F_C (left-overs of the interrupted export must not show). Paths with extension .txt, none, two dots and .tmp. non-trivial (histories) = a stored key changed peer id or a peer expired with tallies on; (crash points) = step strictly between created and renamed; distinct = distinct serialised case / (scenario, path kind, step). (reports-e2e) running aquatic_udp (mio / io_uring, both address families, 1-3 socket workers, cleaning, statistics interval and export every second, peer_clients and histograms on): generated batches of announces from 5 source addresses (4 IPv4, ::1) x 4 ports x 6 torrents with 18 peer ids of 6 client prefixes, re-announces of a stored address under another id, stops; after each batch and after everything has expired the statistics page written by the statistics worker (torrent / peer totals per family, peer-client table) and the export file are polled until they equal the model, a report still different 12 s later is the violation";
+pub const RULE: &str = "(histories) C01's generator with statistics, peer-client tallies, histograms and scrape exports on, 6 peer ids of distinct clients, re-announces of a stored address under a new peer id, stops and expiries; after every clean: the four swarm totals == model, the fold of the PeerAdded/PeerRemoved stream (the statistics worker's rule) == number of stored entries per peer id, each export file == exactly the model's `{4|6} <hex> <seeders> <leechers>` lines. (crash points, fault enumeration) a child process exports state A, mutates to state B and exports again; a probe handler aborts the process at each individual step the export emits (created, every line, before_flush, flushed, renamed) and — second variant — pauses there while a reader reads the path; the file at the configured path must be byte-complete F_A or F_B; after an abort the tracker is started again with a smaller state C and exports to the same path, which must then hold exactly F_C (left-overs of the interrupted export must not show). Paths with extension .txt, none, two dots and .tmp. non-trivial (histories) = a stored key changed peer id or a peer expired with tallies on; (crash points) = step strictly between created and renamed; distinct = distinct serialised case / (scenario, path kind, step). (reports-e2e) running aquatic_udp (mio / io_uring, both address families, 1-3 socket workers, cleaning, statistics interval and export every second, peer_clients and histograms on): generated batches of announces from 5 source addresses (4 IPv4, ::1) x 4 ports x 6 torrents with 18 peer ids of 6 client prefixes, re-announces of a stored address under another id, stops; after each batch and after everything has expired the statistics page written by the statistics worker (torrent / peer totals per family, peer-client table) and the export file are polled until they equal the model, a report still different 12 s later is the violation. (constant-swarm-under-load) 2-6 free-running threads re-announce and scrape a fixed set of peers (1-4 torrents, some sharing a shard, 1/2/3/5/12 peers each, one or both families) while thousands of cleaning passes run with statistics and, in a third of the cases, the export on: the stored state never changes, so after every pass totals and export must equal it exactly, every concurrent reply must show the fixed counts and no PeerRemoved may appear";
 
 pub fn prop_hist(case: &UdpCase) -> CaseResult {
     let mut o = run_udp_case(
@@ -429,6 +429,13 @@ pub fn run(ctx: &mut Ctx) {
     for l in ["crash-at-created", "crash-at-line", "crash-at-before-flush", "crash-at-flushed", "crash-at-renamed", "reader-during-export"] {
         ctx.require_label("crash-points", l, 0.01);
     }
+    // a constant swarm under concurrent re-announces: every pass must report exactly it
+    let saved = ctx.threads;
+    ctx.threads = 4;
+    ctx.run_regress::<crate::checks::hot::HotCase, _>("constant-swarm-under-load", crate::checks::hot::prop_hot);
+    ctx.run_enum("constant-swarm-under-load", crate::checks::hot::cases(ctx.seed, tier), false, crate::checks::hot::prop_hot);
+    ctx.threads = saved;
+    ctx.require_label("constant-swarm-under-load", "passes-overlapped-by-announces", 0.5);
     ctx.confirm_runs = 2;
     ctx.run_regress::<crate::checks::reports::ReportsCase, _>("reports-e2e", crate::checks::reports::prop_reports);
     reports.finish(ctx, "reports-e2e", crate::checks::reports::prop_reports);
@@ -440,6 +447,7 @@ pub fn run(ctx: &mut Ctx) {
 pub fn replay(path: &str, sub: &str, case: serde_json::Value) -> i32 {
     match sub {
         "crash-points" => replay_one::<CrashCase, _>("C20", path, case, prop_crash),
+        "constant-swarm-under-load" => replay_one::<crate::checks::hot::HotCase, _>("C20", path, case, crate::checks::hot::prop_hot),
         "reports-e2e" => replay_one::<crate::checks::reports::ReportsCase, _>("C20", path, case, crate::checks::reports::prop_reports),
         _ => replay_one::<UdpCase, _>("C20", path, case, prop_hist),
     }
